@@ -13,25 +13,20 @@ open Hdr
 
 theorem lookup_append_ne (h : Hdr) (t : String × List String) (n : String) (hne : t.1 ≠ n) :
     lookup (h ++ [t]) n = lookup h n := by
-  unfold lookup
-  simp [List.find?_append, hne]
+  induction h with
+  | nil => simp [lookup, hne]
+  | cons p ps ih => simp only [List.cons_append, lookup, ih]
 
 theorem lookup_setVals_ne (h : Hdr) (m n : String) (vs : List String) (hne : m ≠ n) :
     lookup (setVals h m vs) n = lookup h n := by
-  unfold lookup setVals
   induction h with
   | nil => rfl
   | cons p ps ih =>
-    simp only [List.map_cons, List.find?_cons]
-    by_cases hp : (p.1 == m) = true
-    · have hpm : p.1 = m := by simpa using hp
-      have : (m == n) = false := by simpa using hne
-      have h2 : (p.1 == n) = false := by rw [hpm]; exact this
-      simp [hp, this, h2, ih]
-    · simp only [hp, Bool.false_eq_true, if_false]
-      by_cases hq : (p.1 == n) = true
-      · simp [hq]
-      · simp [hq, ih]
+    simp only [setVals]
+    by_cases hp : p.1 = m
+    · have h2 : ¬ (p.1 = n) := by rw [hp]; exact hne
+      simp [hp, lookup, hne, ih]
+    · simp only [hp, if_false, lookup, ih]
 
 /-- without a conflict among the single-definition tags of a line whose tag names are distinct, the
     tag-by-tag merge runs to the end -/
